@@ -40,6 +40,25 @@ func sliceBoundAtMost(fn *ssa.Function, v ssa.Value, k int64, use ssa.Instructio
 			return true
 		}
 	}
+	// a clamp helper (`cappedCount(n)`): every value it returns is at most K inside the helper
+	if cl, isCall := v.(*ssa.Call); isCall {
+		if h := cl.Common().StaticCallee(); h != nil && h != fn && ir.InModule(h) && len(h.Blocks) > 0 && len(h.Blocks) <= 12 && h.Signature.Results().Len() == 1 {
+			all, n := true, 0
+			for _, b := range h.Blocks {
+				ret, isRet := b.Instrs[len(b.Instrs)-1].(*ssa.Return)
+				if !isRet {
+					continue
+				}
+				n++
+				if !sliceBoundAtMost(h, ret.Results[0], k, ret, nil, depth+1) {
+					all = false
+				}
+			}
+			if all && n > 0 {
+				return true
+			}
+		}
+	}
 	g := relGuard("bound <= K", func(x ssa.Value) bool { return x == v || ir.Strip(x) == ir.Strip(v) }, isConstInt(k), token.LEQ)
 	var sink ir.Sink
 	if via != nil {
